@@ -23,6 +23,8 @@ type fmtVerb struct {
 	width int
 	prec  int
 	verb  byte
+	// width / precision given as '*': taken from the argument list (ip_h5.go evaluates it per case)
+	widthStar, precStar bool
 }
 
 func parseVerbs(format string) (verbs []fmtVerb, tail string) {
@@ -43,6 +45,10 @@ func parseVerbs(format string) (verbs []fmtVerb, tail string) {
 			v.flags += string(format[i])
 			i++
 		}
+		if i < len(format) && format[i] == '*' {
+			v.widthStar = true
+			i++
+		}
 		if i < len(format) && format[i] >= '0' && format[i] <= '9' {
 			v.width = 0
 			for i < len(format) && format[i] >= '0' && format[i] <= '9' {
@@ -53,6 +59,10 @@ func parseVerbs(format string) (verbs []fmtVerb, tail string) {
 		if i < len(format) && format[i] == '.' {
 			i++
 			v.prec = 0
+			if i < len(format) && format[i] == '*' {
+				v.precStar = true
+				i++
+			}
 			for i < len(format) && format[i] >= '0' && format[i] <= '9' {
 				v.prec = v.prec*10 + int(format[i]-'0')
 				i++
@@ -145,6 +155,25 @@ func checkC20(c *Ctx, r *Report) {
 			} else {
 				r.Add("C20-format", where, "format operand", c.pos(ci.Pos())).Bad("format is not a constant or a choice of constants (unresolved)")
 			}
+			// a format whose use (latitude / longitude) is not given by a branch on the flag around it,
+			// or whose width is passed as an argument ('*'), is judged per enumerated case instead:
+			// the case selects the format and the width that reach the call (ip_h5.go)
+			byCase := false
+			for _, cd := range cands {
+				vs, _ := parseVerbs(cd.s)
+				for _, v := range vs {
+					if v.widthStar || v.precStar {
+						byCase = true
+					}
+				}
+				if !cd.latKnw {
+					byCase = true
+				}
+			}
+			if byCase {
+				cands = nil
+				h5CaseFormat(c, r, fn, where, ci, latParam)
+			}
 			for _, cd := range cands {
 				o := r.Add("C20-format", where, fmt.Sprintf("format %q", cd.s), c.pos(ci.Pos()))
 				verbs, tail := parseVerbs(cd.s)
@@ -168,10 +197,12 @@ func checkC20(c *Ctx, r *Report) {
 					o.OK("%s: zero-padded degrees width %d, '-', minutes %%07.4f, hemisphere %%c", kind, wantW)
 				}
 			}
-			// hemisphere letter: last variadic argument
+			// hemisphere letter: the argument formatted by the last verb (the third argument, unless a
+			// '*' width or precision takes an argument before it)
 			if len(ci.Common().Args) == 2 {
 				if sl, ok := ci.Common().Args[1].(*ssa.Slice); ok {
-					// find store to element 2 of the varargs array
+					// find store to that element of the varargs array
+					letterIdx := h5LetterArg(fv)
 					var letter ssa.Value
 					if al, ok := sl.X.(*ssa.Alloc); ok {
 						for _, ref := range *al.Referrers() {
@@ -179,7 +210,7 @@ func checkC20(c *Ctx, r *Report) {
 							if !ok {
 								continue
 							}
-							if k, _ := constInt(ia.Index); k != 2 {
+							if k, _ := constInt(ia.Index); k != letterIdx {
 								continue
 							}
 							for _, r2 := range *ia.Referrers() {
@@ -237,9 +268,9 @@ func checkC20(c *Ctx, r *Report) {
 			}
 			if arg == nil {
 				o.Bad("could not identify the value formatted")
-			} else if pr.LE(nil, false, 0, arg, false, 0, ci) && pr.LE(arg, false, 0, nil, false, 359, ci) {
+			} else if h5Within(pr, arg, 0, 359, ci) {
 				o.OK("0 <= %s <= 359 at the call (guards on the parameter; 360 is mapped to 0)", pathOf(arg))
-			} else if pr.LE(nil, false, 0, arg, false, 0, ci) && pr.LE(arg, false, 0, nil, false, 999, ci) {
+			} else if h5Within(pr, arg, 0, 999, ci) {
 				o.Bad("the value formatted is within three digits but 360 is not normalised to 000 (0 <= v <= 359 not established)")
 			} else {
 				o.Bad("the value formatted is not proven within [0,359]: more than three digits or a sign could be printed")
@@ -335,6 +366,11 @@ func checkC20(c *Ctx, r *Report) {
 				o.OK("Magnetic=%v edge formats %q", mag, s)
 			}
 		}
+	}
+
+	// the suffix clause for a stringer that does not (only) use Sprintf: by case on the flag (ip_h5.go)
+	if fn := c.Func(pkg, "(Course).String"); fn != nil {
+		h5StringerSuffix(c, r, fn)
 	}
 
 	// ---- C20-optional and C20-valid in PosReport.Message
@@ -482,6 +518,7 @@ func c20hemi(c *Ctx, r *Report, pr *prover, fn *ssa.Function, where string, lett
 					bind[p] = g9Abs{kind: g9Coord}
 				}
 			}
+			ev.stopAt = ci
 			fr, _, stuck := ev.run(fn, bind, ci.Block(), nil, 0)
 			if stuck != "" {
 				o.Bad("cannot decide the letter: %s", stuck)
@@ -583,6 +620,8 @@ func c20courseDigits(c *Ctx, r *Report, pr *prover, fn *ssa.Function) bool {
 		ret   *ssa.Return
 		vals  map[int64]*ssa.Store
 		multi bool
+		al    *ssa.Alloc
+		field string
 	}
 	var courses []course
 	any := false
@@ -611,12 +650,17 @@ func c20courseDigits(c *Ctx, r *Report, pr *prover, fn *ssa.Function) bool {
 		if len(vals) > 0 {
 			any = true
 		}
-		courses = append(courses, course{ret, vals, multi})
+		courses = append(courses, course{ret, vals, multi, al, field})
 	}
 	if !any {
 		return false
 	}
 	for _, cs := range courses {
+		// digits written by a loop (or otherwise not with one constant index each): the function is
+		// run over symbolic values and the same obligations are stated on the result (ip_h5.go)
+		if cs.multi && cs.al != nil && h5CourseDigitsByRun(c, r, pr, fn, cs.al, cs.field, cs.ret, degPar) {
+			continue
+		}
 		var value ssa.Value
 		var at ssa.Instruction
 		same := true
@@ -658,9 +702,9 @@ func c20courseDigits(c *Ctx, r *Report, pr *prover, fn *ssa.Function) bool {
 			o.Bad("the three digits are taken from different values")
 		case degPar == nil || !dependsOn(value, func(x ssa.Value) bool { return x == ssa.Value(degPar) }) || g9Narrowed(value, degPar):
 			o.Bad("the value whose digits are stored does not derive from the degrees parameter unchanged in width")
-		case pr.LE(nil, false, 0, value, false, 0, at) && pr.LE(value, false, 0, nil, false, 359, at):
+		case h5Within(pr, value, 0, 359, at):
 			o.OK("0 <= %s <= 359 where the digits are stored (guards on the parameter; 360 is mapped to 0): the three bytes are exactly what %%03d prints", pathOf(value))
-		case pr.LE(nil, false, 0, value, false, 0, at) && pr.LE(value, false, 0, nil, false, 999, at):
+		case h5Within(pr, value, 0, 999, at):
 			o.Bad("the value is within three digits but 360 is not normalised to 000 (0 <= v <= 359 not established)")
 		default:
 			o.Bad("the value whose digits are stored is not proven within [0,359]: a digit byte outside '0'..'9' (or a wrapped one) could be stored")
